@@ -13,7 +13,7 @@ PROP = dict(
          "both alphabets) and int32 boundaries/random for raw, JSON, TL; addresses zero / all-ones / leading zeros / "
          "random; every id goes through every form on Go alone (go.addr.roundtrip) and printer+parser vs model; "
          "non-trivial = distinct (workchain, address). substitutions: all 48 x 63 single-digit substitutions of N "
-         "distinct friendly strings (quick N=200, thorough N=2000), each must be rejected; non-trivial = distinct "
+         "distinct friendly strings (quick N=300, thorough N=8000; the driver runs a csimp-proved table-driven CRC), each must be rejected; non-trivial = distinct "
          "string. malformed stream: fixed list (empty, no colon, short/odd/long/upper-case hex, signs, leading zeros, "
          "int32 overflow, two colons, newlines, wrong length, padding) + 12 mutation kinds applied to valid raw, "
          "friendly, base64, base32 and ADNL strings. ADNL: random addresses, with/without .adnl, upper case, same-length "
